@@ -205,6 +205,10 @@ func richInit(r *hx.Rng) *mp4.InitSegment {
 	if init.Moov.Mvex != nil && r.Bool() {
 		init.Moov.Mvex.AddChild(&mp4.MehdBox{FragmentDuration: 90000})
 	}
+	// further top-level boxes of an init segment (free, uuid, ...)
+	if r.Intn(3) == 0 {
+		init.AddChild(extraBox(r))
+	}
 	return init
 }
 
@@ -341,7 +345,7 @@ func doSetters(seed uint64, n int, repo string) {
 			continue
 		}
 		w := fmt.Sprintf("setters seed=%d i=%d: %s", seed, i, a.desc)
-		out := history(a.a, w, a.opt)
+		out := historyOrder(a.a, w, a.opt, i%2 == 1)
 		if out != nil && a.isSeg {
 			if e := redecodes(out); e != "" {
 				fail(a.kind, "output-does-not-decode", w, "the bytes written are not accepted by DecodeFile: "+e)
